@@ -77,7 +77,6 @@ Fixpoint wf (s : stmt) {struct s} : bool :=
       && match init, tag with Some _, Some t => is_leaf t | _, _ => true end
       && match cls with [] => false | _ => true end
       && shape_ok (is_some tag) cls
-      && match tag with None => true | Some _ => false end
       && forallb (fun c => match c with SCase _ body _ => forallb wf body | _ => false end) cls
   | SCase _ _ _ => false
   | _ => true
